@@ -115,31 +115,7 @@ def generate(seed: int, index: int, tier: str) -> dict:
 
 
 # ---------------------------------------------------------------------------
-def _ref_filter_weights(cfg, flt, yo, yc, failed, cw, tm):
-    """Model weights of one filter; returns (weights | None when nothing succeeded, ambiguous)."""
-    vals = oracles.sort_key_values(cfg, flt, yo, yc)
-    succ = np.sort(vals[~failed])
-    ties = succ.size > 1 and np.min(np.diff(succ)) < 1e-9
-    if flt["method"].startswith("sort"):
-        return model.sort_window_weights(vals, failed, int(flt["options"]["first"]), int(flt["options"]["last"]), cw), ties
-    if (~failed).sum() == 0:
-        return None, False
-    p = float(flt["options"]["percentile"])
-    if flt["method"].endswith("objective"):
-        bad = vals
-    else:
-        j = int(flt["options"]["sort"])
-        nl = cfg["nonlinear_constraints"]
-        lo = float(tm.con_to_opt(np.asarray(nl["lower_bounds"], float))[j])
-        hi = float(tm.con_to_opt(np.asarray(nl["upper_bounds"], float))[j])
-        if np.isfinite(lo) or np.isfinite(hi):
-            bad = np.maximum(lo - vals, vals - hi)
-        else:
-            bad = vals
-        s2 = np.sort(bad[~failed])
-        ties = s2.size > 1 and np.min(np.diff(s2)) < 1e-9
-    w, _ = model.cvar_weights_exact(bad, failed, p)
-    return np.array([float(x) for x in w]), ties
+_ref_filter_weights = oracles.ref_filter_weights
 
 
 def _deficiency(ctx, ln, allow_nan, optimizer_step=True):
